@@ -123,7 +123,7 @@ var props = map[string]*propCfg{
 		Harness: "henv", Extra: "hcore", ExtraOnePerProcess: true, Level: "exploration",
 		QuickRuns: 4000, QuickBudgetS: 100, ThoroughRuns: 300000, ThoroughBudgetS: 1500,
 		WatchdogSlackS: 240, DetSeedsQuick: 6, DetSeedsThorough: 60,
-		Rule:        "every fourth worker runs the whole-core harness instead (one process per run, the C02 scenario with hook tasks): there the real StartActivity / StopActivity / GoError transition bodies and the teardown run, and the published run events (one per timestamp set) must show exactly two end-of-run events per run however it ends; the other workers: same workload as C01; probes snapshot run_number and the four run timestamps from their variable stack; oracles: run number absent at negative-weight before_START_ACTIVITY, present and constant until the end of the STOP_ACTIVITY / GO_ERROR transition, timestamps set at most once and ordered, previous run's timestamps not visible at the start of the next, end timestamps set however the run ended, number gone after the run; non-trivial = more than one request; distinct = distinct (scenario, interleaving); in a quarter of the second harness's runs another client issues a forced DestroyEnvironment while START_ACTIVITY is in flight",
+		Rule:        "every fourth worker runs the whole-core harness instead (one process per run, the C02 scenario with hook tasks): there the real StartActivity / StopActivity / GoError transition bodies and the teardown run, and the published run events (one per timestamp set) must show exactly two end-of-run events per run however it ends; the other workers: same workload as C01; probes snapshot run_number and the four run timestamps from their variable stack; oracles: run number absent at negative-weight before_START_ACTIVITY, present and constant until the end of the STOP_ACTIVITY / GO_ERROR transition, timestamps set at most once and ordered, previous run's timestamps not visible at the start of the next, end timestamps set however the run ended, number gone after the run, end timestamps unchanged between two runs (a START_ACTIVITY whose run number allocation is made to fail - Consul down or CAS refused - begins no run); non-trivial = more than one request; distinct = distinct (scenario, interleaving); in a quarter of the second harness's runs another client issues a forced DestroyEnvironment while START_ACTIVITY is in flight",
 		Real:        []string{"core/environment.Environment: FSM callbacks, TryTransition, handleHooks, hook weights/await bookkeeping, run number and timestamp handling", "core/workflow call roles, callable.Call (Start/Await/Cancel, template execution of the call)", "core/integration plugin registry", "looplab/fsm (instrumented copy)", "apricot NewRunNumber over the real Consul client"},
 		Stub:        []string{"task transition body (injected Transition, verif hook)", "integration plugin: probe plugin registered through the public RegisterPlugin API", "Consul: simconsul", "event writers: capturing writers (verif hook)", "callers follow the API rule (GO_ERROR after a failed request, forced ERROR if refused) as core/server.go does"},
 		Assumptions: append([]string{"teardown and the API-level paths (ControlEnvironment, DestroyEnvironment) are exercised by the whole-core harness, not here", "hook tasks are not generated here (calls only)"}, commonAssumptions...),
